@@ -266,6 +266,34 @@ fn enumerate_expiry(ctx: &mut Ctx, s: &Session, l1: &[Mv], tf: &ThreeFold, tf_us
         ctx.stats.bump("c11.searches-under-the-real-zero-duration-limit");
         check_result(ctx, &fen, l1, 0, &o, tf_used)?;
     }
+    // F-CLOCK, the other corner of the shipped limit: a duration so long that the deadline
+    // cannot be represented ("no limit").  Building the limit and asking it once must be
+    // safe; on a terminal root (where every pass costs one poll and the engine stops by
+    // itself) the search is run under it as well and must report no move.
+    if ctx.tape.choose(4) == 3 {
+        let d = *ctx.tape.pick(&[std::time::Duration::MAX, std::time::Duration::from_secs(u64::MAX), std::time::Duration::from_secs(i64::MAX as u64), std::time::Duration::from_secs(1 << 40)]);
+        ctx.stats.bump("fault.clock.unrepresentable-deadline");
+        let o = op(Op::Search, || {
+            let t = chess_engine::DurationTimeout::new(d);
+            let expired = t.is_complete();
+            if !terminal {
+                return Outcome { mv: None, score: Score::Min, completed: None, polls: expired as u64 };
+            }
+            let mut e = Engine::default();
+            e.positional = positional;
+            let (mv, score) = e.search(&s.board, tf, t);
+            Outcome { mv: mv.map(sut::unmv), score, completed: None, polls: expired as u64 }
+        });
+        if o.polls != 0 {
+            return ctx.fail(Prop::C11, "search.limit-expired-at-once", "limit=unrepresentable-deadline".into(), format!("a limit of {d:?} reported expiry at its first poll"));
+        }
+        if terminal {
+            searches += 1;
+            if let Some(m) = o.mv {
+                return ctx.fail(Prop::C11, "search.move-on-terminal", "limit=unrepresentable-deadline".into(), format!("returned {} in a position without legal moves: {fen}", m.text()));
+            }
+        }
+    }
     ctx.stats.add("c11.searches", searches);
     ctx.stats.add("sim.clock-ticks", polls);
     ctx.stats.bump("c11.positions");
